@@ -4,6 +4,7 @@ import (
 	"fmt"
 	"go/ast"
 	"go/types"
+	"regexp"
 	"sort"
 	"strings"
 
@@ -536,6 +537,27 @@ func C20(p *ir.Program, r *report.R) {
 				continue
 			}
 			r.Check("K3", "evm/fees-append-or-truncate-only/"+ir.FuncName(ir.EnclosingTop(st.Fn)), p.InstrPos(st.Instr), st.Kind != "elem", "evm.fees is only appended to, truncated or reset, never edited in place")
+		}
+	}
+
+	// ---- one EVM serves every transaction of a block: Reset empties the per-transaction lists --------------------
+	// fees / refundFees / otxs are read by the state transition after each transaction (refunds are added
+	// back to the sender's gas). What survives Reset is refunded again to the next transaction.
+	{
+		rs := p.Func("vm/evm", "EVM.Reset")
+		for _, fld := range []string{"fees", "refundFees", "otxs"} {
+			okE := false
+			for _, s := range p.Stores(p.Field("vm/evm", "EVM."+fld)) {
+				if s.Fn != rs || s.Kind != "store" {
+					continue
+				}
+				v := ir.Render(s.Val)
+				okE = regexp.MustCompile(`^make('\d+)?\(\[\][\w.]+,0\)$`).MatchString(v) || strings.HasSuffix(v, "[:0]")
+				r.Check("K2", "evm.(*EVM).Reset/emptied:"+fld, p.InstrPos(s.Instr), okE, "the list is replaced by an empty one (make(.., 0) or x[:0]): "+short(v, 60))
+			}
+			if !okE {
+				r.Check("K2", "evm.(*EVM).Reset/emptied:"+fld+"/found", p.Pos(rs.Pos()), false, "Reset empties evm."+fld)
+			}
 		}
 	}
 
